@@ -67,11 +67,16 @@ func (e *engine) Generate(r *lib.Rng, tier string, i int) any {
 	c := e.generate(r, tier, i).(*Case)
 	if r.Chance(1, 4) {
 		c.Mid = true
+		c.MidGraph = r.Chance(1, 3)
 	}
 	for k := range c.Decls {
 		if len(c.Decls[k].Maps) > 0 && r.Chance(1, 6) {
 			c.Decls[k].Indirect = true
 		}
+	}
+	// a second request served by the same compiled runnables, with other values below the interface-typed slots
+	if !opaqueCase(c) && !c.second() && r.Chance(1, 3) {
+		(&gen{r: r, depth: 3}).addSecond(c)
 	}
 	// one declaration of source type Outer may come from START (the workflow's input) instead of a lambda node
 	for k := range c.Decls {
@@ -126,6 +131,10 @@ func (e *engine) generate(r *lib.Rng, tier string, i int) any {
 		return c
 	case r.Chance(1, 10):
 		if c := g.nilCase(); c != nil {
+			return c
+		}
+	case r.Chance(1, 14):
+		if c := g.retypedCase(); c != nil {
 			return c
 		}
 	case r.Chance(1, 25):
@@ -220,6 +229,14 @@ func (e *engine) generate(r *lib.Rng, tier string, i int) any {
 	return c
 }
 
+func opaqueCase(c *Case) bool {
+	op := opaqueType(c.T)
+	for i := range c.Decls {
+		op = op || opaqueType(c.Decls[i].S)
+	}
+	return op
+}
+
 func coqMappings(ms []Mapping) string {
 	var out []string
 	for _, m := range ms {
@@ -274,8 +291,36 @@ func coqTerm(c *Case, o *outcome) string {
 	for _, s := range c.Statics {
 		sts = append(sts, lib.CoqPair(coqPath(s.To), s.Val.coq()))
 	}
+	// further requests served by the same compiled runnables: (sources, chunks, observed Invoke, observed Stream)
+	var more []string
+	if o.Invoke2 != "" && o.Stream2 != "" && o.Invoke2 != "hang" && o.Stream2 != "hang" && o.Invoke2 != "garbage" && o.Stream2 != "garbage" {
+		var srcs2, chunks2 []string
+		for _, v := range c.vals2() {
+			srcs2 = append(srcs2, v.coq())
+			chunks2 = append(chunks2, lib.CoqList([]string{v.coq()}))
+		}
+		oi2 := "RPanic"
+		switch o.Invoke2 {
+		case "ok":
+			oi2 = "(RVal " + o.InvVal2.coq() + ")"
+		case "err":
+			oi2 = "RErr"
+		}
+		os2 := "SPanic"
+		switch o.Stream2 {
+		case "ok":
+			var vs []string
+			for _, v := range o.StrVals2 {
+				vs = append(vs, v.coq())
+			}
+			os2 = "(SVals " + lib.CoqList(vs) + ")"
+		case "err":
+			os2 = "SErr"
+		}
+		more = append(more, "("+lib.CoqList(srcs2)+", "+lib.CoqList(chunks2)+", "+oi2+", "+os2+")")
+	}
 	return "(MkCase genv gpenv " + coqTy(c.T) + " " + lib.CoqList(ds) + " " + lib.CoqList(sts) + " " + lib.CoqList(srcs) + " " + lib.CoqList(chunks) +
-		" " + oc + " " + oi + " " + os + " " + lib.CoqBool(len(o.SrcMod) > 0) + " [] [])"
+		" " + oc + " " + oi + " " + os + " " + lib.CoqBool(len(o.SrcMod) > 0) + " [] [] " + lib.CoqList(more) + ")"
 }
 
 // do the streamed chunks of every predecessor make up the value it returns in Invoke (one chunk = the value,
@@ -310,6 +355,122 @@ func decomposed(c *Case) bool {
 		}
 	}
 	return true
+}
+
+// what one request on a compiled runnable gave
+type reqObs struct {
+	Invoke  string
+	InvVal  *V
+	InvMsg  string
+	Stream  string
+	StrVals []*V
+	StrMsg  string
+}
+
+// one request against the independent reference: vals = what the predecessors return in Invoke, chunks = what
+// they stream. Only for an accepted, overlap-free case with valid static values.
+func checkRequest(c *Case, tag string, vals []*V, chunks [][]*V, o reqObs, fail0 func(sig, what string)) {
+	fail := func(sig, what string) { fail0(sig, tag+what) }
+	if o.Invoke == "garbage" && tag != "" {
+		fail("invoke-value", "Invoke: "+o.InvMsg)
+	}
+	if o.Stream == "garbage" && tag != "" {
+		fail("stream-value", "Stream: "+o.StrMsg)
+	}
+	if (o.Invoke == "panic" || o.Invoke == "hang") && tag != "" {
+		fail(o.Invoke+":invoke", "Invoke: "+o.Invoke+" "+o.InvMsg)
+	}
+	if (o.Stream == "panic" || o.Stream == "hang") && tag != "" {
+		fail(o.Stream+":stream", "Stream: "+o.Stream+" "+o.StrMsg)
+	}
+	exp, cls := refRunS(c.T, c.Decls, vals, c.Statics, false)
+	switch {
+	case o.Invoke == "ok" && cls == "ok":
+		if !looseEq(exp, o.InvVal) {
+			fail("invoke-value", fmt.Sprintf("Invoke result %s, the mapped values are %s", loose(o.InvVal), loose(exp)))
+		}
+	case o.Invoke == "ok" && cls != "ok":
+		fail("invoke-value", fmt.Sprintf("Invoke returned %s although a source path / type does not resolve", o.InvVal))
+	case o.Invoke == "err" && cls == "ok":
+		fail("invoke-error", fmt.Sprintf("Invoke failed (%s) although every source path resolves to an assignable value; expected %s", o.InvMsg, loose(exp)))
+	}
+	// Stream against the reference: chunk by chunk
+	var expChunks []string
+	expErr := false
+	single := true
+	for i := range c.Decls {
+		d := &c.Decls[i]
+		if len(chunks[i]) != 1 {
+			single = false
+		}
+		for _, ch := range chunks[i] {
+			v, cl := refRun(c.T, []Decl{*d}, []*V{ch}, true)
+			if cl != "ok" {
+				expErr = true
+				break
+			}
+			expChunks = append(expChunks, loose(v).String())
+		}
+	}
+	if len(c.Statics) > 0 && !expErr {
+		// the static values arrive as one chunk of their own
+		v, cl := refRunS(c.T, nil, nil, c.Statics, true)
+		if cl != "ok" {
+			expErr = true
+		} else {
+			expChunks = append(expChunks, loose(v).String())
+		}
+	}
+	sort.Strings(expChunks)
+	switch {
+	case o.Stream == "ok" && expErr:
+		fail("stream-value", "Stream succeeded although a source path / type does not resolve")
+	case o.Stream == "err" && !expErr:
+		fail("stream-error", "Stream failed ("+o.StrMsg+") although every chunk maps")
+	case o.Stream == "ok":
+		var got []string
+		for _, v := range o.StrVals {
+			got = append(got, loose(v).String())
+		}
+		sort.Strings(got)
+		if strings.Join(got, " ; ") != strings.Join(expChunks, " ; ") {
+			fail("stream-value", fmt.Sprintf("Stream chunks %v, the mapped values are %v", got, expChunks))
+		}
+	}
+	// Invoke = Stream (every predecessor emits one chunk)
+	if single && o.Invoke == "ok" {
+		if o.Stream != "ok" {
+			fail("invoke-stream", "Invoke succeeded, Stream: "+o.Stream+" "+o.StrMsg)
+		} else {
+			acc := zeroV(c.T)
+			okm := true
+			for _, ch := range o.StrVals {
+				var ok bool
+				acc, ok = overlay(loose(acc), loose(ch), c.T)
+				if !ok {
+					okm = false
+					break
+				}
+			}
+			if !okm || !looseEq(acc, o.InvVal) {
+				fail("invoke-stream", fmt.Sprintf("Invoke gave %s, the streamed chunks combine to %v", loose(o.InvVal), o.StrVals))
+			}
+		}
+	}
+	if single && o.Invoke == "err" && o.Stream == "ok" {
+		// only a missing map key may turn an Invoke error into a skipped mapping
+		missing := false
+		for i := range c.Decls {
+			for _, m := range c.Decls[i].Maps {
+				if _, cl := refGet(vals[i], m.From); cl == "missing" {
+					missing = true
+				}
+			}
+		}
+		if !missing {
+			fail("invoke-stream", "Invoke failed ("+o.InvMsg+") but Stream succeeded")
+		}
+	}
 }
 
 const reps = 5
@@ -379,7 +540,7 @@ func (e *engine) runUnit(orig *Case) lib.Result {
 	for _, s := range orig.Unit {
 		sts = append(sts, lib.CoqPair(coqPath(s.To), s.Val.coq()))
 	}
-	res.CoqTerm = "(MkCase genv gpenv " + coqTy(c.T) + " [] [] [] [] OOther RNone SNone false " + lib.CoqList(sts) + " " + lib.CoqList(obs) + ")"
+	res.CoqTerm = "(MkCase genv gpenv " + coqTy(c.T) + " [] [] [] [] OOther RNone SNone false " + lib.CoqList(sts) + " " + lib.CoqList(obs) + " [])"
 	res.Nontrivial = len(c.Unit) >= 2
 	res.Tags = []string{"unit", "T:" + c.T, fmt.Sprintf("unit-keys:%d", len(c.Unit)), fmt.Sprintf("unit-outcomes:%d", len(outs))}
 	if conflict {
@@ -444,6 +605,45 @@ func (e *engine) Run(ci any) lib.Result {
 	if o.Stream == "panic" || o.Stream == "hang" {
 		fail(o.Stream+":stream", "Stream: "+o.Stream+" "+o.StrMsg)
 	}
+	// the other two entries of the runnable. Collect runs the workflow in streaming mode and concatenates the chunks
+	// it streams: it must give the overlay of what Stream gave (and fail when Stream fails); Transform must give
+	// what Stream gave. Chunks of a struct / pointer type without a registered concat function cannot be concatenated
+	// when more than one is non-zero (eino's documented limitation, property C14) — the only excuse, as for a
+	// successor that consumes its input as one value.
+	switch {
+	case o.Collect == "" || o.Collect == "hang":
+	case o.Collect == "panic" && o.Stream != "panic":
+		fail("panic:collect", "Collect panicked, Stream: "+o.Stream)
+	case o.Stream == "err" && o.Collect != "err":
+		fail("collect-stream", "Stream failed ("+o.StrMsg+"), Collect: "+o.Collect)
+	case o.Stream == "ok" && o.Collect == "err":
+		if !(strings.Contains(o.ColMsg, "concat") && len(o.StrVals) >= 2) {
+			fail("collect-stream", "Stream succeeded, Collect failed: "+o.ColMsg)
+		}
+	case o.Stream == "ok" && o.Collect == "ok":
+		acc := zeroV(c.T)
+		okm := true
+		for _, ch := range o.StrVals {
+			var ok bool
+			acc, ok = overlay(loose(acc), loose(ch), c.T)
+			if !ok {
+				okm = false
+				break
+			}
+		}
+		if okm && !looseEq(acc, o.ColVal) {
+			fail("collect-stream", fmt.Sprintf("Collect gave %s, the streamed chunks combine to %s", loose(o.ColVal), loose(acc)))
+		}
+	}
+	if o.Transform != "" && (o.Stream == "ok" || o.Stream == "err" || o.Stream == "panic") {
+		want := o.Stream
+		for _, v := range o.StrVals {
+			want += ";" + v.String()
+		}
+		if o.Transform != want {
+			fail("transform-stream", fmt.Sprintf("Transform (input as a one-chunk stream) gave %s, Stream %s %s", o.Transform, want, o.StrMsg))
+		}
+	}
 	tps := allTargets(c)
 	conflict := hasConflict(tps)
 	if conflict && o.Compile == "accept" {
@@ -482,79 +682,20 @@ func (e *engine) Run(ci any) lib.Result {
 		for i := range c.Decls {
 			vals[i] = c.Decls[i].Val
 		}
-		exp, cls := refRunS(c.T, c.Decls, vals, c.Statics, false)
-		switch {
-		case o.Invoke == "ok" && cls == "ok":
-			if !looseEq(exp, o.InvVal) {
-				fail("invoke-value", fmt.Sprintf("Invoke result %s, the mapped values are %s", loose(o.InvVal), loose(exp)))
-			}
-		case o.Invoke == "ok" && cls != "ok":
-			fail("invoke-value", fmt.Sprintf("Invoke returned %s although a source path / type does not resolve", o.InvVal))
-		case o.Invoke == "err" && cls == "ok":
-			fail("invoke-error", fmt.Sprintf("Invoke failed (%s) although every source path resolves to an assignable value; expected %s", o.InvMsg, loose(exp)))
-		}
-		// Stream against the reference: chunk by chunk
-		var expChunks []string
-		expErr := false
-		single := true
+		chunks := make([][]*V, len(c.Decls))
 		for i := range c.Decls {
-			d := &c.Decls[i]
-			if len(d.chunks()) != 1 {
-				single = false
-			}
-			for _, ch := range d.chunks() {
-				v, cl := refRun(c.T, []Decl{*d}, []*V{ch}, true)
-				if cl != "ok" {
-					expErr = true
-					break
-				}
-				expChunks = append(expChunks, loose(v).String())
-			}
+			chunks[i] = c.Decls[i].chunks()
 		}
-		if len(c.Statics) > 0 && !expErr {
-			// the static values arrive as one chunk of their own
-			v, cl := refRunS(c.T, nil, nil, c.Statics, true)
-			if cl != "ok" {
-				expErr = true
-			} else {
-				expChunks = append(expChunks, loose(v).String())
+		checkRequest(c, "", vals, chunks, reqObs{o.Invoke, o.InvVal, o.InvMsg, o.Stream, o.StrVals, o.StrMsg}, fail)
+		if o.Invoke2 != "" || o.Stream2 != "" {
+			// the second request on the same compiled runnables: judged on its own, exactly like the first
+			// ("identically on every run": what a request yields depends on that request's inputs only)
+			vals2 := c.vals2()
+			chunks2 := make([][]*V, len(c.Decls))
+			for i := range vals2 {
+				chunks2[i] = []*V{vals2[i]}
 			}
-		}
-		sort.Strings(expChunks)
-		switch {
-		case o.Stream == "ok" && expErr:
-			fail("stream-value", "Stream succeeded although a source path / type does not resolve")
-		case o.Stream == "err" && !expErr:
-			fail("stream-error", "Stream failed ("+o.StrMsg+") although every chunk maps")
-		case o.Stream == "ok":
-			var got []string
-			for _, v := range o.StrVals {
-				got = append(got, loose(v).String())
-			}
-			sort.Strings(got)
-			if strings.Join(got, " ; ") != strings.Join(expChunks, " ; ") {
-				fail("stream-value", fmt.Sprintf("Stream chunks %v, the mapped values are %v", got, expChunks))
-			}
-		}
-		// Invoke = Stream (every predecessor emits one chunk)
-		if single && o.Invoke == "ok" {
-			if o.Stream != "ok" {
-				fail("invoke-stream", "Invoke succeeded, Stream: "+o.Stream+" "+o.StrMsg)
-			} else {
-				acc := zeroV(c.T)
-				okm := true
-				for _, ch := range o.StrVals {
-					var ok bool
-					acc, ok = overlay(loose(acc), loose(ch), c.T)
-					if !ok {
-						okm = false
-						break
-					}
-				}
-				if !okm || !looseEq(acc, o.InvVal) {
-					fail("invoke-stream", fmt.Sprintf("Invoke gave %s, the streamed chunks combine to %v", loose(o.InvVal), o.StrVals))
-				}
-			}
+			checkRequest(c, "second request on the same runnable: ", vals2, chunks2, reqObs{o.Invoke2, o.InvVal2, o.InvMsg2, o.Stream2, o.StrVals2, o.StrMsg2}, fail)
 		}
 		// Stream into an ordinary successor node: the engine concatenates the converted chunks into the
 		// node's input, which must be the input Invoke hands over. Chunks of a struct / pointer type without a
@@ -573,20 +714,6 @@ func (e *engine) Run(ci any) lib.Result {
 		case "err":
 			if o.Stream == "ok" && !(strings.Contains(o.ConMsg, "concat") && len(o.StrVals) >= 2) {
 				fail("stream-concat", "Stream into an invokable successor failed ("+o.ConMsg+"), into a stream-transparent one it succeeded")
-			}
-		}
-		if single && o.Invoke == "err" && o.Stream == "ok" {
-			// only a missing map key may turn an Invoke error into a skipped mapping
-			missing := false
-			for i := range c.Decls {
-				for _, m := range c.Decls[i].Maps {
-					if _, cl := refGet(c.Decls[i].Val, m.From); cl == "missing" {
-						missing = true
-					}
-				}
-			}
-			if !missing {
-				fail("invoke-stream", "Invoke failed ("+o.InvMsg+") but Stream succeeded")
 			}
 		}
 	}
@@ -633,6 +760,12 @@ func (e *engine) Run(ci any) lib.Result {
 	if multiChunk {
 		res.Tags = append(res.Tags, "multi-chunk")
 	}
+	if c.second() {
+		res.Tags = append(res.Tags, "req2", "req2-invoke:"+o.Invoke2)
+		if dynChanged(c) {
+			res.Tags = append(res.Tags, "req2-dyn-changed")
+		}
+	}
 	if o.Concat != "" {
 		res.Tags = append(res.Tags, "concat:"+o.Concat)
 	}
@@ -651,7 +784,9 @@ func (e *engine) Run(ci any) lib.Result {
 			break
 		}
 	}
-	if c.Mid {
+	if c.Mid && c.MidGraph {
+		res.Tags = append(res.Tags, "succ:mid-graph")
+	} else if c.Mid {
 		res.Tags = append(res.Tags, "succ:mid")
 	} else {
 		res.Tags = append(res.Tags, "succ:end")
